@@ -579,6 +579,24 @@ def check_barrier(ctx, res, batch, N, R, n_prec, n_dg):
             if not (vlib.all_close(Rs1, Rc, 1e-13) and vlib.all_close(Gs1, Gc, 1e-13)):
                 res.violate('barrier-scalar-vs-array:' + site, 'array call of nucleationBarrier differs from the scalar calls entry by entry',
                             dict(info), {'Rcrit': Rc.tolist(), 'Gcrit': Gc.tolist()}, {'Rcrit': Rs1.tolist(), 'Gcrit': Gs1.tolist()})
+        # the value must not depend on the numeric TYPE of the driving-force argument (python int, numpy integer, list of ints,
+        # integer array, float32 array): same numbers, same answer
+        ints = [int(10 ** ctx.rng.uniform(7, 10.5)) for _ in range(3)]
+        with Guard(res, site, dict(info, dGs=ints), where='nucleationBarrier with integer-typed driving forces'):
+            Rf, Gf = barrier_call(np.array(ints, dtype=float), prec, d['ar'])
+            forms = {'int64-array': np.array(ints, dtype=np.int64), 'list-of-ints': list(ints), 'python-int': ints[0],
+                     'numpy-int64': np.int64(ints[0]), 'int32-array': np.array([min(v, 2 ** 31 - 1) for v in ints], dtype=np.int32)}
+            res.count('barrier:argument-type-forms', len(forms))
+            for nm, arg in forms.items():
+                if nm == 'int32-array':
+                    Rw, Gw = barrier_call(np.array(arg, dtype=float), prec, d['ar'])
+                else:
+                    Rw, Gw = (Rf, Gf) if nm.endswith('array') or nm.startswith('list') else (Rf[:1], Gf[:1])
+                Rg, Gg = barrier_call(arg, prec, d['ar'])
+                if not (vlib.all_close(Rg, Rw, 1e-12) and vlib.all_close(Gg, Gw, 1e-12)):
+                    res.violate('barrier-depends-on-argument-type:' + nm, 'nucleationBarrier gives a different answer for the same driving force(s) '
+                                'passed as ' + nm + ' instead of floats', dict(info, dGs=ints, form=nm),
+                                {'Rcrit': Rg.tolist(), 'Gcrit': Gg.tolist()}, {'Rcrit': Rw.tolist(), 'Gcrit': Gw.tolist()})
         for i, dG in enumerate(dGs):
             case = dict(d, kind='barrier', dG=float(dG), dGs=dGs.tolist(), index=i)
             res.case(('barrier', site, d['gamma'], d['k'], d['Rmin'], float(dG)), dG > 0)
